@@ -71,7 +71,7 @@ class Contract:
     """
 
     def __init__(self, fn, name, pre, post, assigns=(), ghosts=(), mode="S", replaces=(), loops=None, unwind=None,
-                 kind="unbounded", extra_flags=(), objbits=None, note="", prop=None, props=None, timeout=None, backends=None, libc=()):
+                 kind="unbounded", extra_flags=(), objbits=None, note="", prop=None, props=None, timeout=None, backends=None, libc=(), optional=False):
         self.fn = fn
         self.name = name
         self.pre = list(pre)
@@ -90,6 +90,7 @@ class Contract:
         self.timeout = timeout
         self.backends = backends  # preferred order of back-end names (products: put kissat/z3 first)
         self.libc = list(libc)    # C library functions replaced by frame-only contracts (assumed dependency contracts)
+        self.optional = optional  # best effort: no verdict within the budget is recorded in the evidence but does not make the check undecided
 
     @property
     def unit(self):
